@@ -331,6 +331,8 @@ package syntax
 
 //@ iface syntax.Type.FilterJson property C17
 //@   opt deterministic on
+//@   modifies ghost(jsonenc)
+//@   ensures ghost(jsonenc)[0] >= old(ghost(jsonenc)[0])
 
 // null is accepted by every validator and passed through unchanged (same slice) by every filter.
 //@ func syntax.ArrayType.IsValidJson property C17
@@ -350,8 +352,12 @@ package syntax
 //@   ensures @fastpath old(s.Dim) == 1 && len(arr) > 0 && (forall j :: 0 <= j && j < len(arr) ==> (len(fn(syntax.Type.FilterJson, s.Elem, arr[j], lookup).0) == len(arr[j]) && (len(arr[j]) == 0 || (base(fn(syntax.Type.FilterJson, s.Elem, arr[j], lookup).0) == base(arr[j]) && off(fn(syntax.Type.FilterJson, s.Elem, arr[j], lookup).0) == off(arr[j]))))) ==> result.0 == data
 //@   loop 1 invariant 0 <= iter && iter <= len(arr) && s.Dim == 1
 //@   loop 1 invariant !different <==> (forall j :: 0 <= j && j < iter ==> (len(fn(syntax.Type.FilterJson, s.Elem, arr[j], lookup).0) == len(arr[j]) && (len(arr[j]) == 0 || (base(fn(syntax.Type.FilterJson, s.Elem, arr[j], lookup).0) == base(arr[j]) && off(fn(syntax.Type.FilterJson, s.Elem, arr[j], lookup).0) == off(arr[j])))))
+// Every key of a rebuilt map object is written through the JSON encoder (jsonenc counts
+// json.Marshal calls; element filters may encode more, never less).
 //@ func syntax.TypedMapType.FilterJson property C17
 //@   ensures @null old(len(data) == 4 && data[0] == 'n' && data[1] == 'u' && data[2] == 'l' && data[3] == 'l') ==> result.0 == data && !result.1 && isnil(result.2)
+//@   ensures @keysencoded ghost(jsonenc)[0] >= old(ghost(jsonenc)[0])
+//@   loop 1 invariant ghost(jsonenc)[0] >= old(ghost(jsonenc)[0]) + nvisited()
 //@ func syntax.StructType.FilterJson property C17
 //@   ensures @null old(len(data) == 4 && data[0] == 'n' && data[1] == 'u' && data[2] == 'l' && data[3] == 'l') ==> result.0 == data && !result.1 && isnil(result.2)
 //@ func syntax.BuiltinType.FilterJson property C17
